@@ -111,6 +111,12 @@ def judge_pool(ctx, t, pool, laws=True):
                            'mid': P.render(pool[j], t, 'readable')})
 
 
+def nested_option(t, inside=False):
+    if t[0] == 'option':
+        return inside or any(nested_option(a, True) for a in t[1:])
+    return any(nested_option(a, False if t[0] not in ('option',) else inside) for a in t[1:])
+
+
 def judge_collections(ctx, rng, t, pool):
     """Literals: sorted accepted, unsorted/duplicate rejected; UPDATE-built set equals the model order."""
     srt = O.sort_unique(t, pool)
@@ -188,7 +194,8 @@ def judge_collections(ctx, rng, t, pool):
     if got != srt:
         ctx.violation('C03|map-UPDATE-key-order-or-dedup|' + t[0], 'got %r want %r' % (got, srt), case)
     # the same map given as a Python dict whose insertion order is the reverse of the key order: the Michelson order decides
-    if len(srt) >= 2:
+    # (not for keys with an option inside an option: their Python objects cannot tell None from Some None - C12's known finding)
+    if len(srt) >= 2 and not nested_option(t):
         try:
             mt = T.map_(t, T.NAT)
             mcls = D.mk_type(mt)
